@@ -20,6 +20,45 @@ def dBackward (f : K → K) (fx x h : K) : K := fx - f (x - h)
 /-- `f(x + 1j*h).imag` -/
 def dComplex (f : Cx K → Cx K) (x h : K) : K := (f ⟨x, h⟩).im
 
+/-! ### the complex-step quotients that leave the real axis along `_SQRT_J = 1j ** 0.5`
+
+The carrier `C` of the complex values and its operations are parameters (`CStep`): ℂ in the theorems
+(`sj` any square root of `I`), `ℚ(ζ₈)` in the exact runs of the driver. -/
+structure CStep (K C : Type) where
+  ofReal : K → C
+  i : C           -- `1j`
+  sj : C          -- `_SQRT_J`
+  re : C → K
+  im : C → K
+
+section cstep
+variable {C : Type} [Add C] [Sub C] [Mul C] [OfNat K 3] [OfNat K 12]
+
+/-- `f(x + 1j*h).imag` on the carrier `C` -/
+def qComplex (s : CStep K C) (f : C → C) (x h : K) : K := s.im (f (s.ofReal x + s.i * s.ofReal h))
+
+/-- `((_SQRT_J / 2.) * (f(x + i_h) - f(x - i_h))).imag` with `i_h = h * _SQRT_J` -/
+def qComplexOdd (s : CStep K C) (f : C → C) (x h : K) : K :=
+  let ih := s.ofReal h * s.sj
+  s.im ((s.sj * s.ofReal (1 / 2)) * (f (s.ofReal x + ih) - f (s.ofReal x - ih)))
+
+/-- `((3 * _SQRT_J) * (f(x + i_h) - f(x - i_h))).real` -/
+def qComplexOddHigher (s : CStep K C) (f : C → C) (x h : K) : K :=
+  let ih := s.ofReal h * s.sj
+  s.re ((s.ofReal 3 * s.sj) * (f (s.ofReal x + ih) - f (s.ofReal x - ih)))
+
+/-- `(f(x + i_h) + f(x - i_h)).imag` -/
+def qComplexEven (s : CStep K C) (f : C → C) (x h : K) : K :=
+  let ih := s.ofReal h * s.sj
+  s.im (f (s.ofReal x + ih) + f (s.ofReal x - ih))
+
+/-- `12.0 * (f(x + i_h) + f(x - i_h) - 2 * f_x).real` -/
+def qComplexEvenHigher (s : CStep K C) (f : C → C) (fx x h : K) : K :=
+  let ih := s.ofReal h * s.sj
+  12 * s.re (f (s.ofReal x + ih) + f (s.ofReal x - ih) - s.ofReal (2 * fx))
+
+end cstep
+
 /-- the scalar difference functions by name -/
 inductive DiffName
   | central | central_even | forward | backward | complex | complex_odd | complex_odd_higher | complex_even
